@@ -25,7 +25,7 @@ ASSUMPTIONS = ["how an empty / falsy sensitive value is rendered under a mask is
 MASKS = [None, "", "*", "XX", "<hidden>"]
 POSITIONS = ["root", "sub", "sub.deep", "t", "items[]", "items[].inner", "ts[]"]
 ALPH = {
-    "sec_s": [None, "", "TOPSECRET-xyz", "Q"],
+    "sec_s": [None, "", "TOPSECRET-xyz", "Q", "MULTILINE-secret\nsecond-LINE\n\tthird"],
     "sec_i": [None, 0, 4242424],
     "sec_l": [None, [], ["LISTSECRET-1", 7]],
     "sec_x": [None, "", "XSECRET-q9"],
